@@ -2,13 +2,13 @@
 """Print a markdown inventory of the property theorems (name + first sentence of the doc comment)."""
 import glob, os, re
 root = os.path.join(os.path.dirname(os.path.dirname(os.path.abspath(__file__))), "lean", "AmqModel", "Props")
-for f in sorted(glob.glob(root + "/C*.lean")) + [root + "/Pass.lean"]:
+for f in sorted(glob.glob(root + "/C*.lean")) + [root + "/Pass.lean", root + "/Handoff.lean"]:
     src = open(f).read()
     src = re.sub(r"/-(?!-)(.*?)-/", "", src, flags=re.S)      # plain block comments (kept originals of restated theorems)
     src = re.sub(r"^\s*--.*$", "", src, flags=re.M)
     pid = os.path.basename(f)[:-5]
     items = []
-    for m in re.finditer(r"(?:/--(.*?)-/\s*)?^theorem\s+([A-Za-z0-9_.']+)", src, re.S | re.M):
+    for m in re.finditer(r"(?:/--((?:(?!-/).)*)-/\s*)?^theorem\s+([A-Za-z0-9_.']+)", src, re.S | re.M):
         doc = (m.group(1) or "").strip().replace("\n", " ")
         doc = re.sub(r"\s+", " ", doc)
         # a doc comment that belongs to an earlier declaration is not ours
